@@ -275,6 +275,8 @@ def families(tier):
     fams.append(('line-point_to_t', 'vf.props.c11arc', 'fam_line_point_to_t', {}))
     fams.append(('arc-arc-circles-all-in', 'vf.props.c11arcarc', 'fam_arc_arc_circles', {'tvals': (0.5, 0.5, 0.5, 0.5)}))
     for sg in (1, -1):
+        fams.append(('arc-arc-circles-complete%s' % ('+' if sg > 0 else '-'), 'vf.props.c11arcarc', 'fam_arc_arc_circles', {'mode': 'complete', 'sign': sg}))
+    for sg in (1, -1):
         fams.append(('arc-phase2t-%s' % ('ccw' if sg > 0 else 'cw'), 'vf.props.c11arc', 'fam_phase2t', {'sign': sg}))
     # Arc.point_to_t answers None only for points of the ellipse that are not on the arc (vf/props/c11arc.py)
     for nm, rad in (('2x1', (2.0, 1.0)), ('circle', (2.0, 2.0))):
